@@ -446,6 +446,52 @@ def run(tier, seed, replay):
         all_lines += lines
         all_impl += impl
         owner += [ci] * len(lines)
+    # ------------------------------------------------------------------ tensor products of superoperators (the reshuffled form
+    # [[[d1],[d1],[d2],[d2]]]*2): index swaps and contractions act on the subsystem index they name.  Index labels of
+    # T = tensor(S1, S2): (to1, from1, to2, from2; primed for the input side); the matrix index of a column-stacked operator
+    # is to + d * from, so the memory order of the rows is (from1, to1, from2, to2).
+    try:
+        import qutip
+
+        def rand_super(dims_):
+            n_ = int(np.prod(dims_)) ** 2
+            return qutip.Qobj(rng.integers(-3, 4, (n_, n_)) + 1j * rng.integers(-3, 4, (n_, n_)), dims=[[list(dims_), list(dims_)]] * 2)
+        for d1, d2 in ((2, 3), (3, 2), (2, 2)):
+            S1, S2 = rand_super([d1]), rand_super([d2])
+            T = qutip.tensor(S1, S2)
+            rep.evaluations += 1
+            rep.count("tensor-of-supers")
+            if T.dims != [[[d1], [d1], [d2], [d2]]] * 2 or np.abs(qutip.reshuffle(qutip.super_tensor(S1, S2)).full() - T.full()).max() > 1e-12:
+                rep.violation(core.Violation("C09:tensor-of-supers:form", f"tensor(S1, S2) of superoperators on {d1} and {d2} levels is not the reshuffled super_tensor / labelled {T.dims}", {"d": [d1, d2]}))
+                continue
+            sw_all = qutip.tensor_swap(T, (0, 2), (1, 3), (4, 6), (5, 7))
+            if sw_all.dims != qutip.tensor(S2, S1).dims or np.abs(sw_all.full() - qutip.tensor(S2, S1).full()).max() > 1e-12:
+                rep.violation(core.Violation("C09:tensor-of-supers:swap-factors", f"swapping every index of the first factor with the one of the second does not give tensor(S2, S1) (levels {d1}, {d2})", {"d": [d1, d2]}))
+            sw = qutip.tensor_swap(T, (0, 2))
+            full = T.full().reshape(d1, d1, d2, d2, -1)
+            want = full.transpose(0, 3, 2, 1, 4).reshape(T.shape)
+            if sw.dims != [[[d2], [d1], [d1], [d2]], [[d1], [d1], [d2], [d2]]] or np.abs(sw.full() - want).max() > 1e-12:
+                rep.violation(core.Violation("C09:tensor-of-supers:swap-to1-to2", f"tensor_swap(T, (0, 2)) on a tensor of superoperators (levels {d1}, {d2}) does not exchange the row indices of the two output operators (labels {sw.dims})", {"d": [d1, d2]}))
+            sw = qutip.tensor_swap(T, (0, 1))
+            A1 = S1.full().reshape(d1, d1, d1, d1).transpose(1, 0, 3, 2)            # (to, from, to', from')
+            S1s = qutip.Qobj(A1.transpose(1, 0, 2, 3).transpose(1, 0, 3, 2).reshape(d1 * d1, d1 * d1), dims=S1.dims)
+            if np.abs(sw.full() - qutip.tensor(S1s, S2).full()).max() > 1e-12:
+                rep.violation(core.Violation("C09:tensor-of-supers:swap-to1-from1", f"tensor_swap(T, (0, 1)) does not transpose the output operator of the first factor (levels {d1}, {d2})", {"d": [d1, d2]}))
+        for d2 in (2, 3):
+            S1, S2 = rand_super([2, 2]), rand_super([d2])
+            T = qutip.tensor(S1, S2)
+            M1 = S1.full().reshape(2, 2, 2, 2, 16)       # (from a, from b, to a, to b; input)
+            rep.evaluations += 1
+            rep.count("tensor-of-supers-contract")
+            for pair, sub in (((0, 2), "xcxbi->cbi"), ((0, 3), "axxbi->abi")):
+                con = qutip.tensor_contract(T, pair)
+                want = np.kron(np.einsum(sub, M1).reshape(4, 16), S2.full())
+                if con.dims != [[[2], [2], [d2], [d2]], [[2, 2], [2, 2], [d2], [d2]]] or np.abs(con.full() - want).max() > 1e-12:
+                    rep.violation(core.Violation(f"C09:tensor-of-supers:contract{pair[0]}{pair[1]}", f"tensor_contract(T, {pair}) on tensor(S1 on two qubits, S2 on {d2} levels) does not contract the named indices of the first factor's output operator (labels {con.dims})", {"d2": d2, "pair": list(pair)}))
+    except core.CaseTimeout:
+        raise
+    except Exception as e:
+        rep.violation(core.Violation("C09:tensor-of-supers:raises", f"{type(e).__name__}: {e}"[:300], {}))
     model = core.run_driver(all_lines)
     ndis, first = 0, None
     for line, (kind, want), m, ci in zip(all_lines, all_impl, model, owner):
